@@ -2,10 +2,11 @@ import Thm.C01SimIf
 /-!
 C01, simulation part: the SELECT CASE statement.
 
-Generated shape: `<selector>; PushAToValueStack`, then per CASE block `caseN` label, the item tests
+Generated shape: `<selector>; PushAToValueStack; Jump select-begin; Jump select-skip; select-begin:` (a resume point),
+then per CASE block `caseN` label, the item tests
 (`<item>; CopyAToB; PopValueStackIntoA; PushAToValueStack; <comparison>; JumpIfFalse next` — selector in A, item in B,
 the selector stays on the value stack), an optional `case-statementsN` label, the body, `Jump end-select`; then the
-optional `case-else` part, the `end-select` label and `PopValueStackIntoA`.
+optional `case-else` part, the `end-select` label, `PopValueStackIntoA` and the `select-skip` label.
 
 `sel_cmp_tail` is one comparison against `relTest`, `caseExpr_correct` one item against `caseMatches`, `conds_correct`
 the item list of a block against `anyMatches`, `cases_correct` walks the blocks by structural recursion (one unit of
@@ -514,7 +515,7 @@ theorem case_select (code : Code) (fuel : Nat) (ih : StmtIHle code fuel) (htp : 
   simp only [compileStmt] at hc
   simp only [Wf] at hw
   obtain ⟨hse, hwc, hwe, _⟩ := hw
-  have he := compileExpr_correct code e off σ hc.append_left.append_left.append_left.append_left hpc
+  have he := compileExpr_correct code e off σ hc.append_left.append_left.append_left.append_left.append_left hpc
     (by rw [hr.env, hty.len]; exact hse)
   simp only [ExprSpec] at he
   rw [hr.env] at he
@@ -535,12 +536,12 @@ theorem case_select (code : Code) (fuel : Nat) (ih : StmtIHle code fuel) (htp : 
         (if hasElse = true then 1 + sizeStmt els else 0) = k ∧
         (if hasElse = true then Cases.else_ (desugar els) else Cases.nil) = T ∧
         (if hasElse = true then [(CInstr.label (labelName "case-else" p sfx), p)] ++
-          compileStmt sfx (off + (compileExpr e).length + 1 + sizeCases cases + 1) els else []) = E ∧
+          compileStmt sfx (off + (compileExpr e).length + 1 + 3 + sizeCases cases + 1) els else []) = E ∧
         E.length = k ∧
-        (CodeAt code (off + (compileExpr e).length + 1 + sizeCases cases) E →
-          ∀ f, f ≤ fuel → ∀ τ : Vm, τ.pc = off + (compileExpr e).length + 1 + sizeCases cases → Rel s τ →
+        (CodeAt code (off + (compileExpr e).length + 1 + 3 + sizeCases cases) E →
+          ∀ f, f ≤ fuel → ∀ τ : Vm, τ.pc = off + (compileExpr e).length + 1 + 3 + sizeCases cases → Rel s τ →
             τ.vals = subj :: σ.vals →
-            StmtSpec code 0 (off + (compileExpr e).length + 1 + sizeCases cases + k) τ s (execCases f p subj T s)) := by
+            StmtSpec code 0 (off + (compileExpr e).length + 1 + 3 + sizeCases cases + k) τ s (execCases f p subj T s)) := by
       cases hasElse with
       | false =>
         refine ⟨0, Cases.nil, [], by simp, by simp, by simp, rfl, ?_⟩
@@ -553,7 +554,7 @@ theorem case_select (code : Code) (fuel : Nat) (ih : StmtIHle code fuel) (htp : 
       | true =>
         refine ⟨1 + sizeStmt els, Cases.else_ (desugar els),
           [(CInstr.label (labelName "case-else" p sfx), p)] ++
-            compileStmt sfx (off + (compileExpr e).length + 1 + sizeCases cases + 1) els, by simp, by simp, by simp,
+            compileStmt sfx (off + (compileExpr e).length + 1 + 3 + sizeCases cases + 1) els, by simp, by simp, by simp,
           by simp [len_stmt]; omega, ?_⟩
         intro hcE f hf τ hτ hrτ _
         cases f with
@@ -563,8 +564,8 @@ theorem case_select (code : Code) (fuel : Nat) (ih : StmtIHle code fuel) (htp : 
           have hl : code[τ.pc]? = some (CInstr.label (labelName "case-else" p sfx), p) := by
             rw [hτ]; exact hcE.append_left.head
           have s1 : CoreVm.step code τ = .next (advance τ) := by simp only [CoreVm.step, hl]
-          have hcb : CodeAt code (off + (compileExpr e).length + 1 + sizeCases cases + 1)
-              (compileStmt sfx (off + (compileExpr e).length + 1 + sizeCases cases + 1) els) := by
+          have hcb : CodeAt code (off + (compileExpr e).length + 1 + 3 + sizeCases cases + 1)
+              (compileStmt sfx (off + (compileExpr e).length + 1 + 3 + sizeCases cases + 1) els) := by
             have := hcE.append_right
             simpa only [List.length_singleton] using this
           have hb := ih f' (by omega) els sfx _ (advance τ) s sl hcb (by simp only [advance, hτ]) (rel_advance hrτ)
@@ -573,43 +574,66 @@ theorem case_select (code : Code) (fuel : Nat) (ih : StmtIHle code fuel) (htp : 
     simp only [hk, hT, hE] at hc ⊢
     clear hk hT hE
     have hpush : code[off + (compileExpr e).length]? = some (CInstr.pushA, p) :=
-      hc.append_left.append_left.append_left.append_right.head
-    have hcc : CodeAt code (off + (compileExpr e).length + 1)
-        (compileCases sfx p (off + (compileExpr e).length + 1 + sizeCases cases + k)
-          (off + (compileExpr e).length + 1 + sizeCases cases) (off + (compileExpr e).length + 1) 0 cases) := by
-      have := hc.append_left.append_left.append_right
+      hc.append_left.append_left.append_left.append_left.append_right.head
+    have hjb : code[off + (compileExpr e).length + 1]? =
+        some (CInstr.jump (off + (compileExpr e).length + 1 + 3 - 1), p) := by
+      have := hc.append_left.append_left.append_left.append_right.head
       simp only [List.length_append, List.length_singleton] at this
-      have e1 : off + ((compileExpr e).length + 1) = off + (compileExpr e).length + 1 := by omega
+      rw [← this]; congr 1
+    have hlb : code[off + (compileExpr e).length + 1 + 3 - 1]? =
+        some (CInstr.label (labelName "select-begin" p sfx), p) := by
+      have := hc.append_left.append_left.append_left.append_right.tail.tail.head
+      simp only [List.length_append, List.length_singleton] at this
+      rw [← this]; congr 1
+    have hcc : CodeAt code (off + (compileExpr e).length + 1 + 3)
+        (compileCases sfx p (off + (compileExpr e).length + 1 + 3 + sizeCases cases + k)
+          (off + (compileExpr e).length + 1 + 3 + sizeCases cases) (off + (compileExpr e).length + 1 + 3) 0 cases) := by
+      have := hc.append_left.append_left.append_right
+      simp only [List.length_append, List.length_singleton, List.length_cons, List.length_nil] at this
+      have e1 : off + ((compileExpr e).length + 1 + (0 + 1 + 1 + 1)) = off + (compileExpr e).length + 1 + 3 := by omega
       rw [e1] at this
       exact this
-    have hcE : CodeAt code (off + (compileExpr e).length + 1 + sizeCases cases) E := by
+    have hcE : CodeAt code (off + (compileExpr e).length + 1 + 3 + sizeCases cases) E := by
       have := hc.append_left.append_right
-      simp only [List.length_append, List.length_singleton, len_cases] at this
-      have e1 : off + ((compileExpr e).length + 1 + sizeCases cases) =
-          off + (compileExpr e).length + 1 + sizeCases cases := by omega
+      simp only [List.length_append, List.length_singleton, List.length_cons, List.length_nil, len_cases] at this
+      have e1 : off + ((compileExpr e).length + 1 + (0 + 1 + 1 + 1) + sizeCases cases) =
+          off + (compileExpr e).length + 1 + 3 + sizeCases cases := by omega
       rw [e1] at this
       exact this
-    have hend : CodeAt code (off + (compileExpr e).length + 1 + sizeCases cases + k)
-        [(CInstr.label (labelName "end-select" p sfx), p), (CInstr.popA, p)] := by
+    have hend : CodeAt code (off + (compileExpr e).length + 1 + 3 + sizeCases cases + k)
+        [(CInstr.label (labelName "end-select" p sfx), p), (CInstr.popA, p),
+          (CInstr.label (labelName "select-skip" p sfx), p)] := by
       have := hc.append_right
-      simp only [List.length_append, List.length_singleton, len_cases, hElen] at this
-      have e1 : off + ((compileExpr e).length + 1 + sizeCases cases + k) =
-          off + (compileExpr e).length + 1 + sizeCases cases + k := by omega
+      simp only [List.length_append, List.length_singleton, List.length_cons, List.length_nil, len_cases, hElen]
+        at this
+      have e1 : off + ((compileExpr e).length + 1 + (0 + 1 + 1 + 1) + sizeCases cases + k) =
+          off + (compileExpr e).length + 1 + 3 + sizeCases cases + k := by omega
       rw [e1] at this
       exact this
-    have hlend : code[off + (compileExpr e).length + 1 + sizeCases cases + k + 0]? =
+    have hlend : code[off + (compileExpr e).length + 1 + 3 + sizeCases cases + k + 0]? =
         some (CInstr.label (labelName "end-select" p sfx), p) := hend.head
-    have hpop : code[off + (compileExpr e).length + 1 + sizeCases cases + k + 1]? = some (CInstr.popA, p) :=
+    have hpop : code[off + (compileExpr e).length + 1 + 3 + sizeCases cases + k + 1]? = some (CInstr.popA, p) :=
       hend.tail.head
-    -- push the subject
+    have hskip : code[off + (compileExpr e).length + 1 + 3 + sizeCases cases + k + 1 + 1]? =
+        some (CInstr.label (labelName "select-skip" p sfx), p) := hend.tail.tail.head
+    -- push the subject, jump to the `select-begin` label, step over it
     let σ1 : Vm := afterExpr σ (off + (compileExpr e).length) subj b
     let σ2 : Vm := advance { σ1 with vals := subj :: σ.vals }
+    let σ3 : Vm := { σ2 with pc := off + (compileExpr e).length + 1 + 3 - 1 }
+    let σ4 : Vm := advance σ3
     have s2 : CoreVm.step code σ1 = .next σ2 := by simp only [CoreVm.step, σ1, afterExpr, hpush]; rfl
-    have hr2 : Rel s σ2 := rel_of _ _ hr.env hr.out hr.skip hr.data hr.dataIdx hr.queue
-    have pre : Steps code σ σ2 := st.trans (Steps.one s2)
-    have hcases := cases_correct code fuel ih sfx p (off + (compileExpr e).length + 1 + sizeCases cases + k)
-      (off + (compileExpr e).length + 1 + sizeCases cases) subj σ.vals T sl s hty (htail hcE) cases fuel
-      (Nat.le_refl _) (off + (compileExpr e).length + 1) 0 σ2 hcc rfl rfl hr2 rfl hwc
+    have s3 : CoreVm.step code σ2 = .next σ3 := by
+      have h : code[σ2.pc]? = some (CInstr.jump (off + (compileExpr e).length + 1 + 3 - 1), p) := hjb
+      simp only [CoreVm.step, h] <;> rfl
+    have s4 : CoreVm.step code σ3 = .next σ4 := by
+      have h : code[σ3.pc]? = some (CInstr.label (labelName "select-begin" p sfx), p) := hlb
+      simp only [CoreVm.step, h] <;> rfl
+    have hr4 : Rel s σ4 := rel_of _ _ hr.env hr.out hr.skip hr.data hr.dataIdx hr.queue
+    have pre : Steps code σ σ4 := st.trans (Steps.cons s2 (Steps.cons s3 (Steps.one s4)))
+    have hcases := cases_correct code fuel ih sfx p (off + (compileExpr e).length + 1 + 3 + sizeCases cases + k)
+      (off + (compileExpr e).length + 1 + 3 + sizeCases cases) subj σ.vals T sl s hty (htail hcE) cases fuel
+      (Nat.le_refl _) (off + (compileExpr e).length + 1 + 3) 0 σ4 hcc rfl
+      (by simp only [σ4, σ3, advance]; omega) hr4 rfl hwc
     have hcases' := spec_then_label _ hcases hlend
     generalize execCases fuel p subj (desugarCases cases T) s = r at hcases' ⊢
     obtain ⟨s', o⟩ := r
@@ -620,8 +644,13 @@ theorem case_select (code : Code) (fuel : Nat) (ih : StmtIHle code fuel) (htp : 
       have hpop' : code[τ.pc]? = some (CInstr.popA, p) := by rw [hp3]; exact hpop
       have hv3 : τ.vals = subj :: σ.vals := hss3.2.1
       let τ1 : Vm := advance { setA τ subj with vals := σ.vals }
-      have s3 : CoreVm.step code τ = .next τ1 := by simp only [CoreVm.step, hpop', hv3]; rfl
-      refine ⟨τ1, (pre.trans st3).trans (Steps.one s3), ?_, ?_, ⟨hss3.1, rfl, hss3.2.2⟩, hlen3⟩
+      have s5 : CoreVm.step code τ = .next τ1 := by simp only [CoreVm.step, hpop', hv3]; rfl
+      have hskip' : code[τ1.pc]? = some (CInstr.label (labelName "select-skip" p sfx), p) := by
+        have : τ1.pc = off + (compileExpr e).length + 1 + 3 + sizeCases cases + k + 1 + 1 := by
+          simp only [τ1, advance, setA, hp3]
+        rw [this]; exact hskip
+      have s6 : CoreVm.step code τ1 = .next (advance τ1) := by simp only [CoreVm.step, hskip']
+      refine ⟨advance τ1, (pre.trans st3).trans (Steps.cons s5 (Steps.one s6)), ?_, ?_, ⟨hss3.1, rfl, hss3.2.2⟩, hlen3⟩
       · simp only [τ1, advance, setA, hp3]; omega
       · exact rel_of _ _ hrel3.env hrel3.out hrel3.skip hrel3.data hrel3.dataIdx hrel3.queue
     | halted =>
